@@ -27,6 +27,8 @@ def gen_ops(tier, rng):
     n = 200 if tier == "quick" else 4000
     for k in range(n):
         ds = dg.gen_dataset(rng, n_inputs=rng.choice([1, 2, 3]), with_clim=True)
+        if k % 5 == 4:
+            ds.cfg["obsrange"] = (0.0, 2.0)          # -obsrange selects on the observed value, not on the anomaly
         dims = dg.oracle_dims(ds)
         if dims is None:
             continue
